@@ -22,6 +22,7 @@ mod c07;
 mod c09;
 mod lintonly;
 mod c04;
+mod lsx;
 mod inputs;
 
 #[path = "/repo/harper-ls/src/git_commit_parser.rs"]
@@ -69,6 +70,8 @@ fn main() {
         "c09" => c09::main(&a),
         "lintonly" => lintonly::main(&a),
         "c04" => c04::main(&a),
+        "ls-ignore" => lsx::ls_ignore(&a),
+        "ls-stats" => lsx::ls_stats(&a),
         other => {
             eprintln!("unknown subcommand {other}");
             std::process::exit(2);
